@@ -83,6 +83,25 @@ def big_configs(defs, pmap, nsteps=4, modes=None, x0s=None):
     return out, len(cfgs) - len(out)
 
 
+LONG_X0 = {1: [700], 2: [400, 200], 3: [330, 3, 0]}
+
+
+def long_configs(defs):
+    """Long exact runs: several hundred events in one run (every buffer, block or list the run loop keeps is crossed many
+    times), all-default answers only (deviation bound 0), run to absorption or to a horizon of 250 time units."""
+    from mc import stoch as _st
+    out = []
+    for i, (sname, d) in enumerate(defs):
+        ns = len(d["states"])
+        if ns not in LONG_X0:
+            continue
+        x0 = _st.legal_x0(d, LONG_X0[ns])
+        c = _st.Config(d, _st.theta_for(d), x0, 250.0, ("exact",), name="%s#%d/long/exact/x0=%s/T=250" % (sname, i, x0))
+        c.horizon = 6000
+        out.append(c)
+    return out
+
+
 def boundary_x0(d):
     """a start state sitting on every declared upper limit (None when no upper limit)"""
     lims = d.get("limits") or []
